@@ -335,6 +335,22 @@ func (v *Verifier) external(st *State, in *ssa.Call, fn *ssa.Function, args []*T
 				return set(v.mkSlice(st, SSlice, rows))
 			}
 		}
+		if args[0].IsInt() {
+			if pat, ok := regexPats[args[0].Int64()]; ok {
+				// unknown subject: some number of matches, each a row of 1 + NumSubexp strings
+				v.assumeNote("regexp FindAllStringSubmatch on a non-constant string: the matches are unconstrained rows of 1+NumSubexp strings")
+				n := int64(regexp.MustCompile(pat).NumSubexp() + 1)
+				rowsArr := Fresh("re_rows", ArraySort(SInt, SSlice))
+				cnt := Fresh("re_n", SInt)
+				st.assume(Ge(cnt, IntLit(0)))
+				ref := st.alloc(ArraySort(SInt, SSlice), rowsArr)
+				i := BVar("i$re", SInt)
+				row := Select(rowsArr, i)
+				st.assume(Forall([]*Term{i}, Implies(And(Ge(i, IntLit(0)), Lt(i, cnt)),
+					And(Eq(Sel(row, 2), IntLit(n)), Ge(Sel(row, 1), IntLit(0)), Lt(Sel(row, 0), IntLit(0))))))
+				return set(Ite(Eq(cnt, IntLit(0)), zeroTerm(SSlice), Mk(SSlice, ref, IntLit(0), cnt)))
+			}
+		}
 	case "log/slog.Debug", "log/slog.Info", "log/slog.Error", "log/slog.Warn":
 		return set()
 	case "log/slog.String", "log/slog.Int", "log/slog.Any", "log/slog.Bool":
